@@ -86,6 +86,12 @@ CHECKS = {
         note="Model evaluators are copies of the original segments composed with t -> 1-t and the matrix by harness arithmetic. Paths with a subpath that has no move of its own are the known finding KF-REVERSE-NO-MOVE (generated in a separate part, reported only under that finding).",
         ref="5/C16",
     ),
+    "C18": dict(
+        technique="stateful property testing: generated object x derivation x mutation histories with a value-snapshot invariant on the untouched side",
+        text="Objects of every family (Point, Matrix, Color, Length, each segment kind, Path, each basic shape incl. degenerate ones, Group with nested children, Text, Image stub) x derivations {copy, x*M, abs, Path(x), Path(subpath), x + data, ~M, A*B, group copy} x histories of 1..6 public mutations applied to either side (in-place *=, reify, point coordinate assignment, list edits, paint edits, transform edits, values edits, stroke width, child edits, reverse). After every step the public-state snapshot of the side that was not mutated must be unchanged; derivations must not change their operands; copies must equal their source. Exploration.",
+        note="Snapshots cover public state only (stored points, kinds, transform entries, apply flag, paint values, stroke width, id, values dict, shape attributes, children recursively).",
+        ref="5/C18",
+    ),
 }
 
 REASON_PENDING = "no check registered yet in this build; the design (DESIGN.md section 5) covers it with property-based testing"
